@@ -152,6 +152,7 @@ def _explore_task(args):
     bind.install(fam.shim_modules)
     ex = core.Explorer(timeout_ms=fam.timeout_ms, logic=fam.logic, round_identity=fam.round_identity)
     ex.concrete_uf = fam.concrete_uf
+    ex.xcheck_budget = int(os.environ.get("VERIF_XCHECK", "0") or 0)
     ex.path_hooks.append(uf.reset_path)
     core.EX = ex
     res = {"case": case, "paths": 0, "candidates": [], "unknown": 0, "checked": 0, "validated": 0,
@@ -220,6 +221,7 @@ def _explore_task(args):
     res["unknown"] += ex.unknowns
     res["nonlinear"] = ex.nonlinear
     res["timed_out"] = ex.timed_out
+    res["xcheck"] = ex.xcheck
     res["prefixes"] = ex.prefixes
     # differential validation: same inputs through (a) engine with constants, (b) plain floats
     for env, envf, had_cand in val_jobs:
@@ -386,6 +388,8 @@ def run_property(prop, tier, seed, jobs=None, only_family=None):
     inconclusive = []
     totals = dict(paths=0, decisions=0, forks=0, checks=0, tsolve=0.0, validated=0, unknown=0, checked=0,
                   cases=0, nonlinear=0, snap_miss=0)
+    xc = {"agree": 0, "disagree": 0, "cvc5_unknown": 0, "samples": []}
+    os.environ["VERIF_XCHECK"] = "2" if tier == "thorough" else os.environ.get("VERIF_XCHECK", "1")
     samples = []
     ctxmp = mp.get_context("fork")
     try:
@@ -432,6 +436,11 @@ def run_property(prop, tier, seed, jobs=None, only_family=None):
                         continue
                     for k in fam_tot:
                         fam_tot[k] += r.get(k, 0)
+                    for k in ("agree", "disagree", "cvc5_unknown"):
+                        xc[k] += r.get("xcheck", {}).get(k, 0)
+                    xc["samples"] += r.get("xcheck", {}).get("samples", [])[:2]
+                    if r.get("xcheck", {}).get("disagree"):
+                        inconclusive.append(f"{fam.name}: z3 and cvc5 disagree on an obligation of case {r['case']}: {r['xcheck']['samples'][:1]}")
                     if os.environ.get("VERIF_DEBUG"):
                         print(f"  [task] {fam.name} prefix={'yes' if a[3] else 'no'} paths={r['paths']} checks={r['checks']} tsolve={r['tsolve']:.1f} wall={r['wall']:.1f} nprefix={len(r['prefixes'])} case={str(r['case'])[:150]}", flush=True)
                     for t, n in r["tags"].items():
@@ -546,6 +555,8 @@ def run_property(prop, tier, seed, jobs=None, only_family=None):
             "families": ev_fams, "candidates_replayed": nrep,
             "known_findings_reproduced": sorted(findings_seen), "inconclusive": inconclusive[:20],
             "solver": _solver_version(),
+            "second_solver_crosscheck": {"solver": "cvc5 (python wheel) on the SMT-LIB2 dump of the obligation query", "obligations_rechecked": xc["agree"] + xc["disagree"] + xc["cvc5_unknown"],
+                                         "agree": xc["agree"], "disagree": xc["disagree"], "cvc5_unknown_or_error": xc["cvc5_unknown"]},
         },
         "assumptions": sorted({a for f in ev_fams for a in f.get("assumptions", [])} | set(getattr(mod, "ASSUMPTIONS", []))),
         "wall_s": round(wall, 2), "violations": violations,
